@@ -22,6 +22,10 @@ def op_names(data):
         return []
 
 
+HUGE_INTS = (2**12900, -(2**12900), 2**12901 - 1, -(2**12901), -(2**14000), [-(2**13000), "a", 2**13000],
+             10**4299, -(10**4299), 10**4300, -(10**4300), 10**5000, -(10**5000), {"k": (-(2**20000) - 1, [1])})
+
+
 def shards(tier, quick_len=4, thorough_len=6, quick_random=350, thorough_random=6000,
            quick_natural=120, thorough_natural=2500, container_len=None, alias_len=None,
            kwargs_len=None):  # fmt: skip
@@ -186,6 +190,12 @@ def run_shard(spec, seed, judge, nt_prog, nt_bytes, focus=None, full=None):
 
         strat = st.one_of(values.plain_values(), values.instance_values())
 
+        def _repr(v):
+            try:
+                return repr(v)[:200]
+            except ValueError:  # beyond the interpreter's int -> str digit limit
+                return f"<{type(v).__name__} whose repr exceeds the int/str digit limit>"
+
         def body(v):
             for proto in range(6):
                 try:
@@ -197,12 +207,20 @@ def run_shard(spec, seed, judge, nt_prog, nt_bytes, focus=None, full=None):
                     data,
                     nt_bytes(data),
                     klass=[klass, f"natural-proto{proto}"],
-                    sample={"natural": data.hex(), "value": repr(v)[:200]},
+                    sample={"natural": data.hex()[:400], "value": _repr(v)},
                 )
                 if f is not None:
                     return f
             return None
 
+        if spec["idx"] == 0:
+            # integers around and beyond the interpreter's int/str digit limit (4300 digits, about
+            # 14285 bits), both signs: printed right or refused, never printed as another number
+            for v in HUGE_INTS:
+                f = body(v)
+                if f is not None:
+                    res.failures.append(f)
+                    return res
         hypothesis_search(strat, body, seed, spec["n"], res, batch=500)
     else:
         raise ValueError(spec)
